@@ -91,7 +91,57 @@ def ins_model_check(scratch: Path, tier: str):
     return states, trans, n
 
 
-def run_property(prop: str, tier: str, specs, *, level="model_checking", crash_is_violation=False,
+SIM_CFG = """SPECIFICATION SimSpec
+CONSTANTS
+  NLive = 10
+  MaxRank = 16
+  MaxIt = 14
+  PoolN = 3
+  CapIt = 12
+  CkptOnTraining = FALSE
+  MidIterSignal = FALSE
+  MaxStops = 0
+CONSTRAINT SimConstraint
+ACTION_CONSTRAINT PrintDone
+CHECK_DEADLOCK FALSE
+"""
+
+
+def scripted_specs(scratch: Path, tier: str, seed: int, v=None):
+    """Behaviours of SimNestedSampler.tla (tlc -simulate, NLive = 10) as scripted replays."""
+    cfg = scratch / "sim.cfg"
+    cfg.write_text(SIM_CFG)
+    num = 150 if tier == "quick" else 2000
+    res = run_tlc("SimNestedSampler", str(cfg), metadir=scratch / "m_sim", workers=1, timeout=1200,
+                  simulate=f"num={num}", extra=["-depth", "400", "-seed", str(seed + 1)], collect_prefix="SIM")
+    if "Error:" in res.stdout:
+        raise MachineryError("SimNestedSampler simulation failed: " + res.error)
+    by_script = {}
+    for r in res.printed:
+        # one replay per distinct sequence of choices up to the first arrival at "done" + 2 run-agains
+        core = tuple(tuple(x) for x in r["script"])
+        n_again = sum(1 for x in core if x[0] == "again")
+        if n_again > 2:
+            continue
+        key = tuple(x for x in core if x[0] != "again")
+        if key not in by_script or n_again > by_script[key][0]:
+            by_script[key] = (n_again, r)
+    recs = [x[1] for x in by_script.values()]
+    recs.sort(key=lambda r: -len(r["script"]))
+    limit = 60 if tier == "quick" else 1200
+    recs = recs[:limit]
+    specs = []
+    for i, rec in enumerate(recs):
+        specs.append({"kind": "scripted", "model": "script", "seed": seed * 100 + i, "nlive": 10, "kwargs": {},
+                      "kills": [], "run_again": 0, "save": None,
+                      "extra": {"script": rec, "pool_n": 3, "cap": 12, "max_again": 2}})
+    if v is not None:
+        v.note(f"SimNestedSampler.tla: {len(res.printed)} completed behaviours simulated, "
+               f"{len(specs)} distinct scripts replayed through the real NestedSampler")
+    return specs, len(res.printed)
+
+
+def run_property(prop: str, tier: str, specs, *, level="model_checking", crash_is_violation=False, scripted=False,
                  extra_cov=None, also=(), sig_of=None, capit=0, note="", ins_specs=()):
     """Run the corpus, validate, report P-failures of `prop` (and of `also`)."""
     seed = seed_from_env()
@@ -99,7 +149,27 @@ def run_property(prop: str, tier: str, specs, *, level="model_checking", crash_i
     with Scratch(prop.lower() + "-") as scratch:
         res, bounds = model_check(scratch, tier, capit)
         v.note(f"NestedSampler.tla: {res.distinct} states, {res.generated} transitions ({res.wall_s:.0f}s)")
+        n_scripted = 0
+        if scripted:
+            sspecs, n_sim = scripted_specs(scratch, tier, seed, v)
+            n_scripted = len(sspecs)
+            specs = list(specs) + sspecs
         hs = run_corpus(specs, scratch / "runs") if specs else []
+        n_replay_ok = 0
+        for h in hs:
+            if h["spec"]["kind"] != "scripted":
+                continue
+            import os as _os
+            from .pack import load_events as _le
+
+            rp = [e for e in _le([f for f in h["events"] if _os.path.exists(f)]) if e["ev"] == "replay"]
+            if not rp:
+                continue
+            if rp[0]["diffs"] or rp[0]["script_left"]:
+                v.mismatch(f"scripted replay: real final state differs from SimNestedSampler.tla in {rp[0]['diffs']} "
+                           f"(script entries left: {rp[0]['script_left']})")
+            else:
+                n_replay_ok += 1
         crashed = [h for h in hs if h["codes"][-1] not in (0,)]
         for h in crashed:
             err = ""
@@ -188,6 +258,7 @@ def run_property(prop: str, tier: str, specs, *, level="model_checking", crash_i
             "traces_validated_against_impl": len(hs) + (ins_stats["histories"] if ins_stats else 0),
             "model_states": res.distinct, "model_bounds": bounds,
             "histories": len(hs), "processes": sum(len(h["codes"]) for h in hs),
+            "scripted_behaviours_replayed": n_scripted, "scripted_replays_equal_to_spec": n_replay_ok,
             "histories_not_completed": len(crashed),
             **{k: stats[k] for k in ("events", "iterations", "populations", "checkpoints", "resumes",
                                      "tie_iterations")},
